@@ -20,7 +20,8 @@ func init() {
 		ID:    "C10",
 		Level: "exploration",
 		Rule: "graphs: every isomorphism class n<=7 (quick) / n<=8 (thorough) x {identity, fixed and seeded relabellings}, every labelled graph n<=5 (6), seeded graphs 9<=n<=13, " +
-			"block forests / cactus graphs built from known pieces up to n=30, named families (K_n, wheels, grids, cages, ...), n=0,1,2; each held as dense, sparse, InducedSubgraph view of a larger host and complement view of the complement. " +
+			"block forests / cactus graphs built from known pieces up to n=30, named families (K_n, wheels, grids, cages, ...), n=0,1,2; each held as dense, sparse, InducedSubgraph view of a larger host and complement view of the complement; " +
+			"large structured graphs with n in {31,32,33,63..66,100,127..130,200,257} (paths, cycles, stars, K_n, K_a,b, grids, tori, hypercubes, ladders, caterpillars, brooms, a long cycle with trees, disjoint unions, block forests with known blocks) as dense, sparse and view, with sampled Distance pairs / ConnectedComponent vertices and closed forms cross-checked against the polynomial oracles. " +
 			"Every value of Distance (all pairs), Eccentricity, Diameter, Radius, Girth, ConnectedComponent (all v), ConnectedComponents, BiconnectedComponents, NumberOfCycles, NumberOfInducedCycles/Paths (every maxLength in -1..n+1, entries up to the bound) " +
 			"is compared with definition oracles computed on the base graph and carried through the relabelling. non-trivial = n>=4 and m>=2; distinct = (labelled graph, representation)",
 		Assumptions: []string{
@@ -36,7 +37,7 @@ func init() {
 			"graphs:disconnected", "graphs:with_cut_vertex", "graphs:acyclic", "graphs:with_bridge", "graphs:blocks>=4",
 			"calls:Distance", "calls:Eccentricity", "calls:Diameter", "calls:Radius", "calls:Girth", "calls:ConnectedComponent", "calls:ConnectedComponents",
 			"calls:BiconnectedComponents", "calls:NumberOfCycles", "calls:NumberOfInducedCycles", "calls:NumberOfInducedPaths",
-			"relabelled_cases", "oracle_crosschecks", "entries_beyond_bound_not_judged",
+			"relabelled_cases", "oracle_crosschecks", "entries_beyond_bound_not_judged", "large:graphs", "large:n=257", "large:calls:Distance",
 		},
 	})
 }
@@ -1054,6 +1055,9 @@ func run(c *engine.Ctx) {
 			}
 		})
 	}
+
+	// 6. large structured graphs around the sizes 32, 64, 128, 256
+	largeWorkload(c)
 }
 
 var polyaCount = []int64{1, 1, 2, 4, 11, 34, 156, 1044, 12346}
